@@ -742,14 +742,14 @@ func (fx *FnCtx) applyCall(st *State, ci *calleeInfo, recv *Val, args []Val, at 
 			}
 			goal := fx.specBool(ce, c.Expr)
 			fx.emit(st, fmt.Sprintf("before(%s):assert[%s]", ci.key, c.Label), "call-assert", c.Tags, goal, c.Src, fx.pos(at))
-			st.assume(goal)
+			st.assume(fx.assumeAfterAssert(fmt.Sprintf("before(%s):assert[%s]", ci.key, c.Label), goal))
 		}
 	}
 	// requires
 	for _, r := range fc.Requires {
 		goal := fx.specBool(pre, r.Expr)
 		fx.emit(st, fmt.Sprintf("call(%s):requires[%s]", ci.key, r.Label), "call-requires", r.Tags, goal, r.Src, fx.pos(at))
-		st.assume(goal)
+		st.assume(fx.assumeAfterAssert(fmt.Sprintf("call(%s):requires[%s]", ci.key, r.Label), goal))
 	}
 	if fc.NoReturn {
 		st.trace = append(st.trace, "exit via "+ci.key+" at "+fx.pos(at))
